@@ -58,12 +58,12 @@ def structure_contract(col, rule, rkw, tname, tf, grid):
             return False, f"weights are not |r'(x)| * w: node {k}: {new.weights[fin][k]!r} vs {(jac * grid.weights)[fin][k]!r}"
         # independent Jacobian: central differences of the real forward map at interior nodes
         lo_d, hi_d = grid.domain
-        x = grid.points
+        x = np.asarray(grid.points, dtype=float)          # integer-typed nodes: the oracle differentiates at the same values as floats
         h = 1e-6 * np.maximum(1.0, np.abs(x))
         # the five-point formula has relative truncation error ~ (h / distance to the nearest singular end)^4: keep to nodes at least 100 h away
         # from both ends of the domain (the map may have a pole there); the proof layer covers every x
         inner = fin & (x - 100 * h > lo_d) & ((x + 100 * h < hi_d) if np.isfinite(hi_d) else True)
-        if tname == "HyperbolicRTransform" or x.dtype.kind in "iu":
+        if tname == "HyperbolicRTransform":
             inner = np.zeros_like(fin)
         if np.any(inner):
             xs = x[inner].astype(float)
@@ -241,6 +241,27 @@ def run(tier, seed, *rest):
         for tname, tf in transforms_for("pos", g, n):
             if tname != "HyperbolicRTransform":
                 structure_contract(col, "hand-built[(0,5)]", {}, tname, tf, fin)
+    # hand-built rules with integer-typed nodes (np.array([-1, 0, 1])): same contracts, and Simpson's exactness is transported by a linear map
+    for k in range(2 if tier == "quick" else 6):
+        a, b = float(g.uniform(-2, 0.5)), float(g.uniform(1, 4))
+        simpson = OneDGrid(np.array([-1, 0, 1]), np.array([1.0, 4.0, 1.0]) / 3.0, (-1, 1))
+        mid = OneDGrid(np.array([0]), np.array([2.0]), (-1, 1))
+        lin = rt.LinearFiniteRTransform(a, b)
+        for grid, label in ((simpson, "Simpson"), (mid, "midpoint")):
+            structure_contract(col, f"hand-built-integer-nodes[{label}]", {}, "LinearFiniteRTransform", lin, grid)
+            for tname, tf in transforms_for("pm1", g, 3):
+                if label == "midpoint":
+                    structure_contract(col, f"hand-built-integer-nodes[{label}]", {}, tname, tf, grid)
+
+        def exact(a=a, b=b, lin=lin, simpson=simpson):
+            new = lin.transform_1d_grid(simpson)
+            for deg in (0, 1, 2, 3):
+                got = new.integrate(new.points**deg)
+                want = (b ** (deg + 1) - a ** (deg + 1)) / (deg + 1)
+                if not abs(got - want) <= 1e-12 * (1 + abs(want)) * max(1.0, abs(b), abs(a)) ** deg:
+                    return False, f"Simpson on integer-typed nodes mapped to [{a:.4g}, {b:.4g}]: int x^{deg} = {got!r}, exact {want!r}"
+            return True, None
+        col.check("transported-exactness:LinearFinite:integer-nodes", exact, inputs={"a": a, "b": b}, sample={"a": a, "b": b})
     integral_contracts(col, g, tier)
     for n in ([150, 400] if tier == "quick" else [60, 150, 400, 1000]):
         trimming_contract(col, g, n)
